@@ -51,6 +51,7 @@ def cores_case():
         sc = draw(c06.mc_case("real"))
         sc["sub"] = "cores"
         sc.pop("extra", None)
+        sc["glob"]["no_index"] = True  # the reference model has no index
         for k in ("rename", "prefix", "suffix", "strip_suffix", "length_tag"):
             sc["o"].pop(k, None)  # the clauses identify reads by their names
         sc["pre_args"] = ["-j", str(sc["workers"]), "--buffer-size", str(sc["buffer"])]
